@@ -7,6 +7,7 @@ import BigtreeProofs.Lemmas.PathsLoop
 import BigtreeProofs.Lemmas.PathsNoDup
 import BigtreeProofs.Lemmas.PathsOrder
 import BigtreeProofs.Lemmas.PathsFold
+import BigtreeProofs.Lemmas.PathsStrMulti
 /-!
 # C05 — path-based constructors build exactly the prefix closure of the given paths
 
@@ -99,6 +100,36 @@ theorem sep_invariant (treeSep : Str) (c d : Char) (dupOk : Bool) (t : Tree) (fr
 
 example : addPath ['/'] ['/'] true (.node 0 ['a'] [] []) 1 "/a/b c/".toList []
     = addPath ['/'] ['.'] true (.node 0 ['a'] [] []) 1 "a.b c".toList [] := by rfl
+
+/-- … for a separator of ANY length (`"::"`, `"->"`): whatever run of separator characters leads or trails
+the path string, the call is the call on the components — for components that are non-empty and share no
+character with the separator (`lstrip`/`rstrip` strip a character set; outside that domain lies K7). -/
+theorem strip_invariant_multi (treeSep sp : Str) (hsp : sp ≠ []) (dupOk : Bool) (t : Tree) (fresh : Nat)
+    (lead trail : Str) (branch : List Str) (attrs : Attrs) (hne : branch ≠ [])
+    (hl : ∀ x ∈ lead, x ∈ sp) (ht : ∀ x ∈ trail, x ∈ sp)
+    (hfree : ∀ x ∈ branch, x ≠ [] ∧ Store.Free sp x) :
+    addPath treeSep sp dupOk t fresh (lead ++ join sp branch ++ trail) attrs
+      = addComps treeSep dupOk t fresh branch attrs := by
+  have hpath : lead ++ join sp branch ++ trail ≠ [] := by
+    obtain ⟨⟨c0, t0, _, h0⟩, _⟩ := Store.join_shape_multi sp branch hne hfree
+    rw [Str.join_eq, h0]
+    simp
+  unfold addPath addComps
+  rw [if_neg hpath, Str.split_strip_join_multi sp hsp lead trail branch hne hl ht hfree]
+
+/-- Independence of the separator chosen, separators of any length -/
+theorem sep_invariant_multi (treeSep sp sq : Str) (hsp : sp ≠ []) (hsq : sq ≠ []) (dupOk : Bool) (t : Tree)
+    (fresh : Nat) (branch : List Str) (attrs : Attrs) (hne : branch ≠ [])
+    (hp : ∀ x ∈ branch, x ≠ [] ∧ Store.Free sp x) (hq : ∀ x ∈ branch, x ≠ [] ∧ Store.Free sq x) :
+    addPath treeSep sp dupOk t fresh (join sp branch) attrs
+      = addPath treeSep sq dupOk t fresh (join sq branch) attrs := by
+  have h1 := strip_invariant_multi treeSep sp hsp dupOk t fresh [] [] branch attrs hne (by simp) (by simp) hp
+  have h2 := strip_invariant_multi treeSep sq hsq dupOk t fresh [] [] branch attrs hne (by simp) (by simp) hq
+  simp only [List.nil_append, List.append_nil] at h1 h2
+  rw [h1, h2]
+
+example : addPath ['/'] [':', ':'] true (.node 0 ['a'] [] []) 1 ":a::b c::::".toList []
+    = addPath ['/'] ['-', '>'] true (.node 0 ['a'] [] []) 1 "a->b c".toList [] := by rfl
 
 /-- With duplicate names disallowed (`find_name` over the whole tree + comparison of the full
     path, fix D3) the call either raises, or returns exactly what the call with duplicates
